@@ -211,7 +211,8 @@ func (g *gen) atom() val {
 	case x < 65:
 		return vStr(g.str())
 	case x < 75:
-		return vSym(g.word(1+g.r.Intn(3), false) + []string{"", "", "1", "2"}[g.r.Intn(4)])
+		// (the one-letter symbol t is the constant, and slip's reader turns 't into another symbol)
+		return vSym(g.word(2+g.r.Intn(2), false) + []string{"", "", "1", "2"}[g.r.Intn(4)])
 	case x < 83:
 		return vChr(common.Pick(g.r, charPool))
 	case x < 90:
@@ -929,7 +930,9 @@ type caseRec struct {
 }
 
 func Run(ctx *common.Ctx) {
-	g := &gen{ctx: ctx, r: ctx.Rng}
+	// common.NewRng(seed) steps by the same constant it multiplies the seed with, so the streams of seeds
+	// 1, 2, 3 ... are shifts of one another; re-seeding from an output of the stream separates them
+	g := &gen{ctx: ctx, r: common.NewRng(ctx.Rng.Next())}
 	tables := writeTables(ctx)
 	nInt, nWords, nFlow, nAS, nPrint := 700, 300, 1300, 200, 250
 	if ctx.Thorough() {
@@ -941,6 +944,13 @@ func Run(ctx *common.Ctx) {
 	add := func(class string, p piece) {
 		if !printable(p.ctl) || strings.ContainsAny(p.ctl, `"\`) {
 			return
+		}
+		for _, a := range p.args {
+			if a.k == kList && len(a.inner()) > 60 {
+				// slip's printer breaks long lists over several lines (the pretty printer is C03's subject)
+				ctx.Hist("skipped:long-list")
+				return
+			}
 		}
 		if riskyWidth(p) {
 			ctx.Hist("skipped:v-with-large-integer")
